@@ -32,11 +32,14 @@ pub struct SCase {
     /// block's coinbase transaction (miners put commitments and tags there; position must not matter)
     #[serde(default)]
     pub cb_every: u8,
+    /// the tool's stdout is a pseudo terminal instead of a pipe (C16)
+    #[serde(default)]
+    pub tty: bool,
 }
 
 fn scase(coins: Vec<Coin>, script: BS<Vec<u8>>, nscripts: std::ops::Range<usize>, ranges: bool) -> BS<SCase> {
     let r = if ranges { prop_oneof![2 => Just(None), 1 => (any::<u16>(), any::<u16>()).prop_map(Some)].boxed() } else { Just(None).boxed() };
-    (proptest::sample::select(coins), proptest::collection::vec(script, nscripts), 1u8..6, 1u8..8, r, prop_oneof![4 => Just(0u8), 1 => Just(1u8), 1 => Just(2u8)]).prop_map(|(coin, scripts, per_tx, txs_per_block, range, verbose)| SCase { coin, scripts, per_tx, txs_per_block, range, verbose, base: 0, cb_every: 0 }).boxed()
+    (proptest::sample::select(coins), proptest::collection::vec(script, nscripts), 1u8..6, 1u8..8, r, prop_oneof![4 => Just(0u8), 1 => Just(1u8), 1 => Just(2u8)]).prop_map(|(coin, scripts, per_tx, txs_per_block, range, verbose)| SCase { coin, scripts, per_tx, txs_per_block, range, verbose, base: 0, cb_every: 0, tty: false }).boxed()
 }
 
 fn build(c: &SCase) -> vpmodel::spec::Built {
@@ -216,7 +219,7 @@ fn c16_strategy(tier: Tier) -> BS<SCase> {
     let n = if tier == Tier::Quick { 5..80 } else { 5..300 };
     // heights of 8..10 digits (the line pads the height to 9 columns; heights are an `int` in Bitcoin Core)
     let base = prop_oneof![12 => Just(0u64), 1 => Just(99_999_990u64), 1 => Just(999_999_995u64), 1 => Just((1u64 << 31) - 500), 1 => 1_000_000_000u64..(1u64 << 31) - 500];
-    (scase(vpmodel::chain::ALL_COINS.to_vec(), gen::c16_script(tier), n, true), base, prop_oneof![2 => Just(0u8), 1 => 1u8..4]).prop_map(|(mut c, base, cb_every)| { c.base = base; c.cb_every = cb_every; c }).boxed()
+    (scase(vpmodel::chain::ALL_COINS.to_vec(), gen::c16_script(tier), n, true), base, prop_oneof![2 => Just(0u8), 1 => 1u8..4], proptest::bool::weighted(0.25)).prop_map(|(mut c, base, cb_every, tty)| { c.base = base; c.cb_every = cb_every; c.tty = tty; c }).boxed()
 }
 
 pub fn check_c16(c: &SCase) -> Verdict {
@@ -237,6 +240,7 @@ pub fn check_c16(c: &SCase) -> Verdict {
     let w = infra!(World::create("c16", &mut plan));
     let mut o = RunOpts::new(c.coin, Callback::OpReturn);
     o.verbose = c.verbose;
+    o.tty = c.tty;
     o.start = start;
     o.end = end;
     let out = infra!(w.run(&o));
@@ -245,7 +249,7 @@ pub fn check_c16(c: &SCase) -> Verdict {
     }
     let range = range_of(&built.blocks, s, e);
     holds!(check_opreturn(c.coin, &range, &out).map_err(|m| format!("range {}..={}: {}", s, e, m)));
-    let mut classes = vec![format!("coin-class={}", if c.coin.is_btc() { "bitcoin" } else { "fork" }), format!("ranged={}", start.is_some())];
+    let mut classes = vec![format!("coin-class={}", if c.coin.is_btc() { "bitcoin" } else { "fork" }), format!("ranged={}", start.is_some()), format!("stdout={}", if c.tty { "terminal" } else { "pipe" })];
     let mut nontrivial = false;
     for sc in &c.scripts {
         if let Some(p) = op_return_single_push(sc) {
